@@ -103,6 +103,136 @@ Proof.
   destruct (lstrip r) as [|c t]; [reflexivity|]. now rewrite Hr.
 Qed.
 
+(* ---------------------------------------------------------------- the forms of a scalar value *)
+Inductive sform := FBare | FQuoted | FBraced (lead : bytes) | FDouble (w1 w2 w3 : bytes).
+(* as written in the file *)
+Definition stext (f : sform) (s : bytes) : bytes :=
+  match f with
+  | FBare => s
+  | FQuoted => QUOTE :: s ++ [QUOTE]
+  | FBraced lead => LBRACE :: lead ++ s ++ [RBRACE]
+  | FDouble w1 w2 w3 => LBRACE :: w1 ++ LBRACE :: w2 ++ RBRACE :: w3 ++ [RBRACE]
+  end.
+(* as the tokeniser sees it, after the empty-double-brace rewrite *)
+Definition stext' (f : sform) (s : bytes) : bytes :=
+  match f with FDouble _ _ _ => [QUOTE; QUOTE] | _ => stext f s end.
+Definition sform_ok (f : sform) (s : bytes) : bool :=
+  match f with
+  | FBare => negb (needs_quote s)
+  | FQuoted => true
+  | FBraced lead => all_ws lead && negb (mem LBRACE s) && negb (mem RBRACE s) && negb (mem QUOTE s) && negb (mem HASH s)
+                    && match s with c :: _ => negb (is_ws c) | [] => true end
+  | FDouble w1 w2 w3 => all_ws w1 && all_ws w2 && all_ws w3 && beq s []
+  end.
+
+Lemma braced_parts lead s : sform_ok (FBraced lead) s = true ->
+  all_ws lead = true /\ mem LBRACE s = false /\ mem RBRACE s = false /\ mem QUOTE s = false /\ mem HASH s = false /\
+  brace_adm s = true.
+Proof.
+  cbn [sform_ok]. intros H. apply andb_true_iff in H as [H H6]. apply andb_true_iff in H as [H H5].
+  apply andb_true_iff in H as [H H4]. apply andb_true_iff in H as [H H3]. apply andb_true_iff in H as [H1 H2].
+  apply negb_true_iff in H2, H3, H4, H5. repeat split; auto. unfold brace_adm. now rewrite H3, H6.
+Qed.
+
+Lemma double_parts w1 w2 w3 s : sform_ok (FDouble w1 w2 w3) s = true ->
+  all_ws w1 = true /\ all_ws w2 = true /\ all_ws w3 = true /\ s = [].
+Proof.
+  cbn [sform_ok]. intros H. apply andb_true_iff in H as [H H4]. apply andb_true_iff in H as [H H3].
+  apply andb_true_iff in H as [H1 H2]. apply beq_eq in H4. auto.
+Qed.
+
+Lemma stext'_token f s w rest : tok_ok s = true -> sform_ok f s = true -> all_ws w = true -> head_not_ws rest -> (w = [] -> rest = []) ->
+  get_token (stext' f s ++ w ++ rest) = Some (s, rest).
+Proof.
+  intros Hok Hf Hw Hr Hwr. destruct f as [| |lead|w1 w2 w3]; cbn [stext' stext].
+  - cbn [sform_ok] in Hf. destruct w as [|x w].
+    + rewrite (Hwr eq_refl). rewrite app_nil_r. pose proof (pform_token_end false s [] Hok) as G. cbn [pform] in G. rewrite app_nil_r in G.
+      apply G; [unfold adm; now rewrite Hf|reflexivity].
+    + apply (pform_token_sep false s (x :: w) rest Hok); [unfold adm; now rewrite Hf|discriminate|exact Hw|exact Hr].
+  - destruct w as [|x w].
+    + rewrite (Hwr eq_refl). rewrite app_nil_r. pose proof (pform_token_end true s [] Hok) as G. cbn [pform] in G. rewrite app_nil_r in G.
+      apply G; reflexivity.
+    + apply (pform_token_sep true s (x :: w) rest Hok); [reflexivity|discriminate|exact Hw|exact Hr].
+  - destruct (braced_parts lead s Hf) as [Hl [_ [_ [_ [_ Hb]]]]].
+    change ((LBRACE :: lead ++ s ++ [RBRACE]) ++ w ++ rest) with (LBRACE :: (lead ++ s ++ [RBRACE]) ++ w ++ rest).
+    rewrite <- !app_assoc. cbn [app]. now apply get_token_braced.
+  - destruct (double_parts _ _ _ _ Hf) as [_ [_ [_ ->]]]. cbn [app].
+    pose proof (get_token_quoted [] (w ++ rest) eq_refl) as G. cbn [app] in G. rewrite G. now rewrite lstrip_ws_app_id.
+Qed.
+
+Lemma stext_head f s : sform_ok f s = true -> head_not_ws (stext f s) /\ stext f s <> [].
+Proof.
+  destruct f; cbn [stext sform_ok]; intros H; try (split; [reflexivity|discriminate]).
+  apply (pform_head false s). unfold adm. now rewrite H.
+Qed.
+
+Lemma stext_last f s : sform_ok f s = true -> last_not_ws (stext f s).
+Proof.
+  destruct f as [| |lead|w1 w2 w3]; cbn [stext sform_ok]; intros H.
+  - apply (pform_last false s). unfold adm. now rewrite H.
+  - apply (pform_last true s). reflexivity.
+  - rewrite app_comm_cons, app_assoc. now apply last_not_ws_app.
+  - change (LBRACE :: w1 ++ LBRACE :: w2 ++ RBRACE :: w3 ++ [RBRACE]) with ((LBRACE :: w1) ++ (LBRACE :: w2) ++ (RBRACE :: w3) ++ [RBRACE]).
+    rewrite !app_assoc. now apply last_not_ws_app.
+Qed.
+
+Lemma qscan_stext f s : mem QUOTE s = false -> sform_ok f s = true -> qscan (stext f s) = (true, true).
+Proof.
+  intros Hq Hf. destruct f as [| |lead|w1 w2 w3]; cbn [stext].
+  - apply (qscan_pform false); auto; unfold adm; cbn [sform_ok] in Hf; now rewrite Hf.
+  - now apply (qscan_pform true).
+  - destruct (braced_parts lead s Hf) as [Hl [_ [_ [_ [Hh _]]]]].
+    apply (qscan_tt_app [LBRACE]); [reflexivity|]. apply qscan_tt_app; [now apply qscan_blanks|].
+    apply qscan_tt_app; [now apply qscan_plain|reflexivity].
+  - destruct (double_parts _ _ _ _ Hf) as [H1 [H2 [H3 _]]].
+    apply (qscan_tt_app [LBRACE]); [reflexivity|]. apply qscan_tt_app; [now apply qscan_blanks|].
+    apply (qscan_tt_app [LBRACE]); [reflexivity|]. apply qscan_tt_app; [now apply qscan_blanks|].
+    apply (qscan_tt_app [RBRACE]); [reflexivity|]. apply qscan_tt_app; [now apply qscan_blanks|reflexivity].
+Qed.
+
+(* text without double quote and opening brace is copied by the rewrite, in whatever copy state it is entered *)
+Lemma dbl_plain t : forall r k, mem QUOTE t = false -> mem LBRACE t = false -> ws_or_end r ->
+  (k <= length (fst (span not_ws (t ++ r))))%nat -> dbl_aux k 0 (t ++ r) = t ++ dbl_aux 0 0 r.
+Proof.
+  induction t as [|c t IH]; intros r k Hq Hb Hr Hk.
+  - cbn [app] in *. assert (k = 0%nat).
+    { destruct r as [|x r]; cbn [span fst length] in Hk; [lia|]. cbn [ws_or_end] in Hr. unfold not_ws in Hk. rewrite Hr in Hk.
+      cbn [negb fst length] in Hk. lia. }
+    now subst.
+  - apply mem_cons_false in Hq as [Hcq Hq]. apply mem_cons_false in Hb as [Hcb Hb]. cbn [app] in *.
+    cbn [span] in Hk. destruct (not_ws c) eqn:Nc.
+    + destruct (span not_ws (t ++ r)) as [a b] eqn:E. cbn [fst length] in Hk. cbn [dbl_aux]. destruct k as [|k'].
+      * rewrite Hcq. cbn [andb]. unfold not_ws in Nc. rewrite Nc, Hcb. cbn [negb andb]. f_equal.
+        rewrite E. cbn [fst]. apply IH; auto. rewrite E. cbn [fst]. lia.
+      * f_equal. apply IH; auto. rewrite E. cbn [fst]. lia.
+    + cbn [fst length] in Hk. assert (k = 0%nat) by lia. subst k. cbn [dbl_aux]. rewrite Hcq. cbn [andb].
+      unfold not_ws in Nc. apply negb_false_iff in Nc. rewrite Nc. cbn [negb andb].
+      unfold match_dbl. rewrite Hcb. f_equal. apply IH; auto. lia.
+Qed.
+
+Lemma dbl_stext f s r : tok_ok s = true -> sform_ok f s = true -> ws_or_end r ->
+  dbl_aux 0 0 (stext f s ++ r) = stext' f s ++ dbl_aux 0 0 r.
+Proof.
+  intros Hok Hf Hr. destruct f as [| |lead|w1 w2 w3]; cbn [stext stext'].
+  - apply (dbl_pform false); auto; unfold adm; cbn [sform_ok] in Hf; now rewrite Hf.
+  - now apply (dbl_pform true).
+  - destruct (braced_parts lead s Hf) as [Hl [Hlb [Hrb [Hq [_ Hb]]]]].
+    cbn [app]. rewrite <- !app_assoc. cbn [app]. rewrite dbl_open_blank.
+    + rewrite dbl_blanks by auto. replace (s ++ RBRACE :: r) with ((s ++ [RBRACE]) ++ r) by (now rewrite <- app_assoc).
+      rewrite dbl_plain; auto.
+      * now rewrite <- app_assoc.
+      * rewrite mem_app, Hq. reflexivity.
+      * rewrite mem_app, Hlb. reflexivity.
+      * lia.
+    + rewrite lstrip_ws_app_id; auto.
+      * destruct s as [|c s]; [reflexivity|]. cbn [app]. now apply mem_cons_false in Hlb as [Hc _].
+      * unfold brace_adm in Hb. apply andb_true_iff in Hb as [_ Hh]. destruct s as [|c s]; [reflexivity|]. cbn [app head_not_ws].
+        now apply negb_true_iff.
+  - destruct (double_parts _ _ _ _ Hf) as [H1 [H2 [H3 _]]].
+    cbn [app]. rewrite <- !app_assoc. cbn [app]. rewrite <- !app_assoc. cbn [app]. rewrite <- !app_assoc. cbn [app].
+    now apply double_brace_is_empty_string.
+Qed.
+
 (* ---------------------------------------------------------------- array elements with their gaps *)
 Definition elem := (bytes * bool * bytes)%type.          (* text, quoted?, blanks after it *)
 Definition e_text (e : elem) : bytes := fst (fst e).
@@ -186,39 +316,42 @@ Proof.
 Qed.
 
 (* ---------------------------------------------------------------- laid-out cells and rows *)
-Inductive lcell := LSc (v : sval) (q : bool) | LAr (lead : bytes) (es : list (sval * bool * bytes)).
+Inductive lcell := LSc (v : sval) (f : sform) | LAr (lead : bytes) (es : list (sval * bool * bytes)).
 Definition elem_of (x : sval * bool * bytes) : elem := (show_sval (fst (fst x)), snd (fst x), snd x).
 Definition cell_of (c : lcell) : cell := match c with LSc v _ => Sc v | LAr _ es => Ar (map (fun x => fst (fst x)) es) end.
 Definition rcell (c : lcell) : bytes :=
   match c with
-  | LSc v q => pform q (show_sval v)
+  | LSc v f => stext f (show_sval v)
+  | LAr lead es => LBRACE :: lead ++ body (map elem_of es) ++ [RBRACE]
+  end.
+(* after the empty-double-brace rewrite *)
+Definition rcell' (c : lcell) : bytes :=
+  match c with
+  | LSc v f => stext' f (show_sval v)
   | LAr lead es => LBRACE :: lead ++ body (map elem_of es) ++ [RBRACE]
   end.
 Definition lcell_ok (c : lcell) : bool :=
   match c with
-  | LSc v q => sval_tok_ok false v && adm q (show_sval v)
+  | LSc v f => sval_tok_ok false v && sform_ok f (show_sval v)
   | LAr lead es => all_ws lead && elems_ok (map elem_of es) && forallb (fun x => sval_tok_ok true (fst (fst x))) es
   end.
 
 Lemma map_e_text es : map e_text (map elem_of es) = map show_sval (map (fun x : sval * bool * bytes => fst (fst x)) es).
 Proof. rewrite !map_map. reflexivity. Qed.
 
-(* get_token + convert on one laid-out cell followed by blanks or the end *)
+(* get_token + convert on one laid-out cell (as the tokeniser sees it) followed by blanks or the end *)
 Lemma lcell_token typ c w rest :
   lcell_ok c = true -> cell_fits (classify typ) (isarray typ) (cell_of c) = true ->
   all_ws w = true -> head_not_ws rest -> (w = [] -> rest = []) ->
-  exists data, get_token (rcell c ++ w ++ rest) = Some (data, rest) /\
+  exists data, get_token (rcell' c ++ w ++ rest) = Some (data, rest) /\
     (if isarray typ
      then obind (split_array (S (length data)) data) (fun ts => option_map Ar (omap (conv1 (classify typ)) ts))
      else option_map Sc (conv1 (classify typ) data)) = Some (cell_of c).
 Proof.
-  intros Hok Hf Hw Hr Hwr. destruct c as [v q|lead es]; cbn [lcell_ok cell_of rcell cell_fits] in *.
+  intros Hok Hf Hw Hr Hwr. destruct c as [v f|lead es]; cbn [lcell_ok cell_of rcell' cell_fits] in *.
   - apply andb_true_iff in Hok as [Ht Ha]. apply andb_true_iff in Hf as [Hf _]. apply andb_true_iff in Hf as [Hi Hk].
     apply negb_true_iff in Hi. exists (show_sval v). rewrite Hi. rewrite conv1_show by auto. split; auto.
-    destruct w as [|x w].
-    + rewrite (Hwr eq_refl). rewrite app_nil_r. rewrite <- (app_nil_r (pform q (show_sval v))).
-      apply pform_token_end; auto. now apply show_sval_tok_ok.
-    + apply pform_token_sep; auto; [now apply show_sval_tok_ok|discriminate].
+    apply stext'_token; auto. now apply show_sval_tok_ok.
   - apply andb_true_iff in Hok as [Hok Hts]. apply andb_true_iff in Hok as [Hl He].
     apply andb_true_iff in Hf as [Hf _]. apply andb_true_iff in Hf as [Hi Hk].
     exists (body (map elem_of es)). rewrite Hi. split.
@@ -236,32 +369,38 @@ Qed.
 
 Lemma rcell_head c : lcell_ok c = true -> head_not_ws (rcell c) /\ rcell c <> [].
 Proof.
-  destruct c as [v q|lead es]; cbn [lcell_ok rcell]; intros H; [|split; [reflexivity|discriminate]].
-  apply andb_true_iff in H as [_ Ha]. now apply pform_head.
+  destruct c as [v f|lead es]; cbn [lcell_ok rcell]; intros H; [|split; [reflexivity|discriminate]].
+  apply andb_true_iff in H as [_ Ha]. now apply stext_head.
+Qed.
+
+Lemma rcell'_head c : lcell_ok c = true -> head_not_ws (rcell' c) /\ rcell' c <> [].
+Proof.
+  destruct c as [v f|lead es]; cbn [lcell_ok rcell']; intros H; [|split; [reflexivity|discriminate]].
+  apply andb_true_iff in H as [_ Ha]. destruct f; cbn [stext']; try (now apply (stext_head _ _ Ha)). split; [reflexivity|discriminate].
 Qed.
 
 Lemma rcell_last c : lcell_ok c = true -> last_not_ws (rcell c).
 Proof.
-  destruct c as [v q|lead es]; cbn [lcell_ok rcell]; intros H.
-  - apply andb_true_iff in H as [_ Ha]. now apply pform_last.
+  destruct c as [v f|lead es]; cbn [lcell_ok rcell]; intros H.
+  - apply andb_true_iff in H as [_ Ha]. now apply stext_last.
   - change (LBRACE :: lead ++ body (map elem_of es) ++ [RBRACE]) with ((LBRACE :: lead) ++ body (map elem_of es) ++ [RBRACE]).
     apply last_not_ws_app_r; [destruct (body (map elem_of es)); discriminate|]. now apply last_not_ws_app.
 Qed.
 
 Lemma qscan_rcell c : lcell_ok c = true -> qscan (rcell c) = (true, true).
 Proof.
-  destruct c as [v q|lead es]; cbn [lcell_ok rcell]; intros H.
-  - apply andb_true_iff in H as [Ht Ha]. apply qscan_pform; auto.
+  destruct c as [v f|lead es]; cbn [lcell_ok rcell]; intros H.
+  - apply andb_true_iff in H as [Ht Ha]. apply qscan_stext; auto.
     destruct (tok_ok_head _ (show_sval_tok_ok v Ht)) as [Hq _]. exact Hq.
   - apply andb_true_iff in H as [H _]. apply andb_true_iff in H as [Hl He].
     apply (qscan_tt_app [LBRACE]); [reflexivity|]. apply qscan_tt_app; [now apply qscan_blanks|].
     apply qscan_tt_app; [now apply qscan_body|reflexivity].
 Qed.
 
-Lemma dbl_rcell c r : lcell_ok c = true -> ws_or_end r -> dbl_aux 0 0 (rcell c ++ r) = rcell c ++ dbl_aux 0 0 r.
+Lemma dbl_rcell c r : lcell_ok c = true -> ws_or_end r -> dbl_aux 0 0 (rcell c ++ r) = rcell' c ++ dbl_aux 0 0 r.
 Proof.
-  destruct c as [v q|lead es]; cbn [lcell_ok rcell]; intros H Hr.
-  - apply andb_true_iff in H as [Ht Ha]. apply dbl_pform; auto. now apply show_sval_tok_ok.
+  destruct c as [v f|lead es]; cbn [lcell_ok rcell rcell']; intros H Hr.
+  - apply andb_true_iff in H as [Ht Ha]. apply dbl_stext; auto. now apply show_sval_tok_ok.
   - apply andb_true_iff in H as [H _]. apply andb_true_iff in H as [Hl He].
     cbn [app]. rewrite <- !app_assoc. cbn [app]. rewrite dbl_open_blank.
     + rewrite dbl_blanks by auto. destruct es as [|x es].
@@ -275,8 +414,9 @@ Proof.
       * pose proof (body_head _ He) as Hh. destruct (body (map elem_of es)); [reflexivity|exact Hh].
 Qed.
 
-(* cells, each preceded by its gap *)
+(* cells, each preceded by its gap: as written, and as the tokeniser sees them *)
 Definition rtext (cells : list (bytes * lcell)) : bytes := concat (map (fun gc => fst gc ++ rcell (snd gc)) cells).
+Definition rtext' (cells : list (bytes * lcell)) : bytes := concat (map (fun gc => fst gc ++ rcell' (snd gc)) cells).
 Definition cells_ok (cells : list (bytes * lcell)) : bool :=
   forallb (fun gc => all_ws (fst gc) && negb (beq (fst gc) []) && lcell_ok (snd gc)) cells.
 
@@ -297,32 +437,32 @@ Fixpoint lrow_fits (cols : tcols) (cells : list (bytes * lcell)) : bool :=
 Lemma lrow_fits_gap cols g g' c cells : lrow_fits cols ((g, c) :: cells) = lrow_fits cols ((g', c) :: cells).
 Proof. destruct cols as [|[n [t|]] cols]; reflexivity. Qed.
 
-Lemma rtext_ws_or_end cells : cells_ok cells = true -> ws_or_end (rtext cells).
+Lemma rtext_ws_or_end cells : cells_ok cells = true -> ws_or_end (rtext cells) /\ ws_or_end (rtext' cells).
 Proof.
-  destruct cells as [|[g c] cells]; [intros _; exact I|]. intros H. destruct (cells_ok_cons _ _ _ H) as [Hw [Hn _]].
-  unfold rtext. cbn [map concat fst]. destruct g as [|x g]; [congruence|]. cbn [app ws_or_end].
-  cbn [all_ws forallb] in Hw. now apply andb_true_iff in Hw as [Hx _].
+  destruct cells as [|[g c] cells]; [intros _; split; exact I|]. intros H. destruct (cells_ok_cons _ _ _ H) as [Hw [Hn _]].
+  unfold rtext, rtext'. cbn [map concat fst]. destruct g as [|x g]; [congruence|]. cbn [app ws_or_end].
+  cbn [all_ws forallb] in Hw. apply andb_true_iff in Hw as [Hx _]. auto.
 Qed.
 
 Theorem parse_cells_layout cols : forall c cells, lcell_ok c = true -> cells_ok cells = true ->
   lrow_fits cols ((@nil N, c) :: cells) = true ->
-  parse_cells cols (rcell c ++ rtext cells) = Some (cell_of c :: map (fun gc => cell_of (snd gc)) cells).
+  parse_cells cols (rcell' c ++ rtext' cells) = Some (cell_of c :: map (fun gc => cell_of (snd gc)) cells).
 Proof.
   induction cols as [|[name otyp] cols IH]; intros c cells Hc Hcs Hf; [discriminate|].
   destruct otyp as [typ|]; [|discriminate]. cbn [lrow_fits snd] in Hf. apply andb_true_iff in Hf as [Hfc Hfr].
-  cbn [parse_cells]. destruct (rcell_head c Hc) as [Hh Hn].
+  cbn [parse_cells]. destruct (rcell'_head c Hc) as [Hh Hn].
   rewrite head_not_ws_not_all_ws.
-  2:{ destruct (rcell c); [congruence|discriminate]. }
-  2:{ destruct (rcell c); [congruence|exact Hh]. }
+  2:{ destruct (rcell' c); [congruence|discriminate]. }
+  2:{ destruct (rcell' c); [congruence|exact Hh]. }
   destruct cells as [|[g c'] cells'].
-  - unfold rtext. cbn [map concat]. rewrite app_nil_r.
+  - unfold rtext'. cbn [map concat]. rewrite app_nil_r.
     destruct (lcell_token typ c [] [] Hc Hfc eq_refl I (fun _ => eq_refl)) as [data [Hg Hcv]]. cbn [app] in Hg.
     rewrite app_nil_r in Hg. rewrite Hg, Hcv. destruct cols as [|[n o] cols']; [reflexivity|destruct o; discriminate].
   - destruct (cells_ok_cons _ _ _ Hcs) as [Hw [Hgn [Hc' Hcs']]].
-    unfold rtext. cbn [map concat fst snd]. fold (rtext cells'). rewrite <- app_assoc.
-    destruct (rcell_head c' Hc') as [Hh' Hn'].
-    destruct (lcell_token typ c g (rcell c' ++ rtext cells') Hc Hfc Hw) as [data [Hg Hcv]].
-    + destruct (rcell c'); [congruence|exact Hh'].
+    unfold rtext'. cbn [map concat fst snd]. fold (rtext' cells'). rewrite <- app_assoc.
+    destruct (rcell'_head c' Hc') as [Hh' Hn'].
+    destruct (lcell_token typ c g (rcell' c' ++ rtext' cells') Hc Hfc Hw) as [data [Hg Hcv]].
+    + destruct (rcell' c'); [congruence|exact Hh'].
     + intros E. congruence.
     + rewrite Hg, Hcv. rewrite (IH c' cells'); auto. now rewrite (lrow_fits_gap cols [] g).
 Qed.
@@ -337,11 +477,11 @@ Proof.
   apply qscan_tt_app; [now apply qscan_blanks|now apply qscan_rcell].
 Qed.
 
-Lemma dbl_rtext cells : cells_ok cells = true -> dbl_aux 0 0 (rtext cells) = rtext cells.
+Lemma dbl_rtext cells : cells_ok cells = true -> dbl_aux 0 0 (rtext cells) = rtext' cells.
 Proof.
   induction cells as [|[g c] cells IH]; intros H; [reflexivity|]. destruct (cells_ok_cons _ _ _ H) as [Hw [_ [Hc Hcs]]].
-  unfold rtext in *. cbn [map concat fst snd]. rewrite <- app_assoc. rewrite dbl_blanks by auto.
-  rewrite dbl_rcell; auto; [now rewrite IH|]. now apply (rtext_ws_or_end cells).
+  unfold rtext, rtext' in *. cbn [map concat fst snd]. rewrite <- app_assoc. rewrite dbl_blanks by auto.
+  rewrite dbl_rcell; auto; [now rewrite IH, <- app_assoc|]. now destruct (rtext_ws_or_end cells Hcs).
 Qed.
 
 Lemma rtext_last cells : cells_ok cells = true -> cells <> [] -> last_not_ws (rtext cells) /\ rtext cells <> [].
@@ -388,18 +528,19 @@ Proof.
   rewrite Sk. unfold clean_line. rewrite strip_id by auto. rewrite Ht. unfold double_braces, lrow_core.
   assert (Hq : match name with c :: _ => (c =? QUOTE) = false /\ (c =? LBRACE) = false | [] => True end).
   { destruct name as [|c n']; auto. cbn [forallb] in Hw. apply andb_true_iff in Hw as [Hc0 _]. split; now apply word_not. }
-  rewrite dbl_word; [|exact Hn|now apply word_all_not_ws|exact Hq|now apply rtext_ws_or_end].
+  destruct (rtext_ws_or_end cells Hc) as [WE WE'].
+  rewrite dbl_word; [|exact Hn|now apply word_all_not_ws|exact Hq|exact WE].
   rewrite dbl_rtext by auto.
   destruct cells as [|[g c] cells'].
-  - unfold rtext. cbn [map concat]. rewrite app_nil_r.
+  - unfold rtext'. cbn [map concat]. rewrite app_nil_r.
     rewrite get_token_bare_eol; auto; [|now apply word_tok_ok|now apply word_all_not_ws].
     rewrite Hsy. destruct cols as [|[n o] cols']; cbn [parse_cells all_ws forallb]; reflexivity.
   - destruct (cells_ok_cons _ _ _ Hc) as [Hgw [Hgn [Hcc Hcs]]]. cbn [snd] in Hf.
-    unfold rtext. cbn [map concat fst snd]. fold (rtext cells'). rewrite <- app_assoc.
+    unfold rtext'. cbn [map concat fst snd]. fold (rtext' cells'). rewrite <- app_assoc.
     destruct g as [|x g]; [congruence|]. cbn [app].
-    rewrite get_token_bare; auto; [|now apply word_tok_ok|now apply word_all_not_ws|cbn [all_ws forallb] in Hgw; now apply andb_true_iff in Hgw as [Hx _]].
-    change (x :: g ++ rcell c ++ rtext cells') with ((x :: g) ++ rcell c ++ rtext cells').
+    rewrite get_token_bare; [|exact Hn|now apply word_tok_ok|now apply word_all_not_ws|cbn [all_ws forallb] in Hgw; now apply andb_true_iff in Hgw as [Hx _]].
+    change (x :: g ++ rcell' c ++ rtext' cells') with ((x :: g) ++ rcell' c ++ rtext' cells').
     rewrite lstrip_ws_app_id; auto.
     + rewrite Hsy. rewrite parse_cells_layout; auto.
-    + destruct (rcell_head c Hcc) as [Hh' Hn']. destruct (rcell c); [congruence|exact Hh'].
+    + destruct (rcell'_head c Hcc) as [Hh' Hn']. destruct (rcell' c); [congruence|exact Hh'].
 Qed.
